@@ -6,6 +6,7 @@ import (
 	"errors"
 	"fmt"
 	"io"
+	"runtime"
 	"sort"
 	"strings"
 	"sync"
@@ -19,6 +20,7 @@ import (
 	"github.com/anyproto/any-sync/commonspace/pubsub"
 	"github.com/anyproto/any-sync/commonspace/pubsub/pubsubproto"
 	"github.com/anyproto/any-sync/net/peer"
+	"github.com/anyproto/any-sync/net/streampool"
 	"github.com/anyproto/any-sync/testutil/accounttest"
 	"github.com/anyproto/any-sync/util/crypto"
 
@@ -152,8 +154,9 @@ type svcCfg struct {
 }
 
 type svcEv struct {
-	K     string   `json:"k"` // open sub unsub pub close break evict revalidate closespace setmember snap
+	K     string   `json:"k"` // open sub unsub pub close break evict revalidate closespace setmember snap submid
 	Sid   int      `json:"sid,omitempty"`
+	V     int      `json:"victim,omitempty"` // submid: the stream that leaves the pool while sid's Subscribe is being handled
 	Space int      `json:"space,omitempty"`
 	Acct  int      `json:"acct,omitempty"`
 	Pats  []string `json:"pats,omitempty"`  // "@N" inside a string stands for the name of account N
@@ -190,6 +193,48 @@ type driver struct {
 	nextSid int
 	pingN   int
 	tagsSeen map[string][2]string // tag -> (space, pattern)
+	real    streampool.StreamPool // the service's own pool
+	race    *racePool             // pass-through wrapper installed in its place
+}
+
+// racePool forwards everything to the service's real pool. When armed, the next AddTagsCtx call made on behalf
+// of stream sid (i.e. by its Subscribe handler, after the interest was recorded) first runs act — which removes a
+// stream from the real pool and gives its close hook the chance to run — and is then forwarded unchanged.
+// No behaviour is injected other than the schedule.
+type racePool struct {
+	streampool.StreamPool
+	mu    sync.Mutex
+	armed bool
+	sid   uint32
+	act   func()
+	fired bool
+}
+
+func (p *racePool) AddTagsCtx(ctx context.Context, tags ...string) error {
+	var act func()
+	p.mu.Lock()
+	if id, ok := streampool.CtxStreamId(ctx); p.armed && ok && id == p.sid {
+		p.armed, p.fired, act = false, true, p.act
+	}
+	p.mu.Unlock()
+	if act != nil {
+		act()
+	}
+	return p.StreamPool.AddTagsCtx(ctx, tags...)
+}
+
+func (p *racePool) arm(sid int, act func()) {
+	p.mu.Lock()
+	p.armed, p.fired, p.sid, p.act = true, false, uint32(sid), act
+	p.mu.Unlock()
+}
+
+func (p *racePool) disarm() (fired bool) {
+	p.mu.Lock()
+	fired = p.fired
+	p.armed, p.fired, p.act = false, false, nil
+	p.mu.Unlock()
+	return
 }
 
 const waitLong = 5 * time.Second
@@ -214,7 +259,68 @@ func newDriver(c svcCfg) *driver {
 	if err := d.app.Start(context.Background()); err != nil {
 		panic(err)
 	}
+	d.real = pubsub.VerifPool(d.svc)
+	d.race = &racePool{StreamPool: d.real}
+	pubsub.VerifSetPool(d.svc, d.race)
 	return d
+}
+
+// dropFromPool makes the write loop of a pooled stream fail, so that the pool removes the stream (its read loop
+// stays alive), and waits until the pool has done so. It does NOT wait for the close hook.
+func (d *driver) dropFromPool(s *fakeStream, sid int) error {
+	s.sendFail.Store(true)
+	deadline := time.Now().Add(waitLong)
+	for streampool.VerifStreamHandle(d.real, uint32(sid)) != nil {
+		_ = d.real.SendById(context.Background(), badPublish("~ping~x"), fmt.Sprintf("p%d", sid))
+		if time.Now().After(deadline) {
+			return errHang
+		}
+		time.Sleep(50 * time.Microsecond)
+	}
+	return nil
+}
+
+// letCloseHookRun is called from inside a frame handler (at one of its pool calls) after stream sid left the pool.
+// If remoteMu is held — by the handler we are inside of — the close hook cannot run before the handler returns and
+// there is nothing to wait for; this is decided by the lock state alone, not by timing. If remoteMu is free, the
+// hook is running or about to run: wait until it has dropped the stream's record.
+func (d *driver) letCloseHookRun(sid int) {
+	deadline := time.Now().Add(3 * time.Second)
+	lockedRuns := 0
+	for time.Now().Before(deadline) {
+		locked, has := pubsub.VerifTryStreamRecord(d.svc, uint32(sid))
+		switch {
+		case locked:
+			// held by the handler we are inside of (for its whole duration), or for a moment by the hook itself
+			if lockedRuns++; lockedRuns >= 3 {
+				return
+			}
+			runtime.Gosched()
+			continue
+		case !has:
+			return
+		}
+		lockedRuns = 0
+		time.Sleep(100 * time.Microsecond)
+	}
+}
+
+// awaitNoRecord waits until the close hook of a removed stream has dropped its record
+func (d *driver) awaitNoRecord(sid int) {
+	deadline := time.Now().Add(waitLong)
+	for time.Now().Before(deadline) {
+		_, strs := pubsub.VerifServing(d.svc)
+		still := false
+		for _, v := range strs {
+			if int(v.StreamId) == sid {
+				still = true
+			}
+		}
+		if !still {
+			return
+		}
+		time.Sleep(50 * time.Microsecond)
+	}
 }
 
 func (d *driver) shutdown() {
@@ -539,41 +645,72 @@ func (g *gen) svcCase(h svcHist) {
 			obT = append(obT, "ONone")
 		case "break":
 			if s := d.streams[e.Sid]; s != nil && d.pooled[e.Sid] {
-				s.sendFail.Store(true)
-				if d.feed(e.Sid, badPublish("~ping~break")) != nil {
-					hang("break")
+				// wait until the pool has dropped the stream and the close hook has run
+				if d.dropFromPool(s, e.Sid) != nil {
+					hang("break (stream never left the pool)")
 					return
 				}
-				// wait until the pool has dropped the stream and the close hook has run
-				deadline := time.Now().Add(waitLong)
-				for {
-					err := pubsub.VerifPool(d.svc).SendById(context.Background(), badPublish("~ping~x"), fmt.Sprintf("p%d", e.Sid))
-					if err != nil {
-						break
-					}
-					if time.Now().After(deadline) {
-						hang("break (stream never left the pool)")
-						return
-					}
-					time.Sleep(50 * time.Microsecond)
-				}
-				for time.Now().Before(deadline) {
-					_, strs := pubsub.VerifServing(d.svc)
-					still := false
-					for _, v := range strs {
-						if int(v.StreamId) == e.Sid {
-							still = true
-						}
-					}
-					if !still {
-						break
-					}
-					time.Sleep(50 * time.Microsecond)
-				}
+				d.awaitNoRecord(e.Sid)
 				d.pooled[e.Sid] = false
 			}
 			evT = append(evT, vlib.App("EBreak", vlib.N(uint64(e.Sid))))
 			obT = append(obT, "ONone")
+		case "submid":
+			// Subscribe on e.Sid; stream e.V leaves the pool when the handler calls AddTagsCtx (after the interest was
+			// recorded), or right after the handler if it makes no such call
+			for _, p := range pats {
+				d.tagsSeen[pubsub.VerifInterestTag(space, p)] = [2]string{space, p}
+			}
+			victim := d.streams[e.V]
+			victimPooled := victim != nil && d.pooled[e.V]
+			var dropErr error
+			d.race.arm(e.Sid, func() {
+				if victimPooled {
+					if dropErr = d.dropFromPool(victim, e.V); dropErr == nil {
+						d.letCloseHookRun(e.V)
+					}
+				}
+			})
+			m := &pubsubproto.PubSubMessage{Content: &pubsubproto.PubSubMessage_Subscribe{Subscribe: &pubsubproto.Subscribe{SpaceId: space, Topics: pats}}}
+			ferr := d.feed(e.Sid, m)
+			fired := d.race.disarm()
+			if ferr != nil || dropErr != nil {
+				hang("submid")
+				return
+			}
+			if fired {
+				g.w.Stat("svc.submid.fired")
+				if victimPooled {
+					d.awaitNoRecord(e.V)
+					d.pooled[e.V] = false
+				}
+			} else {
+				g.w.Stat("svc.submid.not_fired")
+			}
+			if d.flush() != nil {
+				hang("submid flush")
+				return
+			}
+			ob := "ONone"
+			for sid, ms := range d.collect() {
+				for _, x := range ms {
+					if st := x.GetStatus(); st != nil && sid == e.Sid {
+						ob = vlib.App("OStatus", vlib.N(uint64(st.Code)), strsTerm(st.Topics))
+					} else {
+						ob = vlib.App("OStatus", "999", "[]")
+					}
+				}
+			}
+			if !fired && victimPooled {
+				if d.dropFromPool(victim, e.V) != nil {
+					hang("submid (stream never left the pool)")
+					return
+				}
+				d.awaitNoRecord(e.V)
+				d.pooled[e.V] = false
+			}
+			evT = append(evT, vlib.App("ESubMid", vlib.N(uint64(e.Sid)), vlib.N(uint64(e.V)), vlib.N(uint64(e.Space)), strsTerm(pats)))
+			obT = append(obT, ob)
 		case "evict":
 			d.svc.EvictMember(space, accounts[e.Acct].keys.SignKey.GetPublic())
 			evT = append(evT, vlib.App("EEvict", vlib.N(uint64(e.Space)), vlib.N(uint64(e.Acct))))
@@ -733,6 +870,18 @@ func (g *gen) genService(r *vlib.Rand, thorough bool, budget int) {
 				evs = append(evs, svcEv{K: "closespace", Space: rr.Intn(2)})
 			case x < 94:
 				evs = append(evs, svcEv{K: "setmember", Space: rr.Intn(2), Acct: rr.Intn(3), B: true})
+			case x < 97:
+				// a Subscribe during which a stream (mostly the subscribing one) leaves the pool
+				sid := anySid()
+				v := sid
+				if rr.Chance(1, 3) {
+					v = anySid()
+				}
+				var ps []string
+				for j := 1 + rr.Intn(3); j > 0; j-- {
+					ps = append(ps, pick(goodPats))
+				}
+				evs = append(evs, svcEv{K: "submid", Sid: sid, V: v, Space: space(), Pats: ps})
 			default:
 				evs = append(evs, svcEv{K: "snap"})
 			}
@@ -817,6 +966,136 @@ func (g *gen) genServiceNoSideEffects(r *vlib.Rand, thorough bool, budget int) {
 				g.svcCase(svcHist{Cfg: c, Evs: evs})
 			}
 		}
+	}
+}
+
+// genServiceCloseRace: a stream leaves the pool while a Subscribe handler sits between the recording of the interest and
+// pool.AddTagsCtx (event "submid"), in situations where the bookkeeping of OTHER streams is at stake: other streams hold
+// the same patterns (1-3 holders), the racing stream has earlier interest of its own (same space / other space / the same
+// pattern already), the Subscribe mixes new, duplicate and over-the-cap patterns, the stream that leaves is the subscriber
+// itself or one of the holders, the race is repeated on fresh streams. After every race: publishes on matching and
+// non-matching topics and a snapshot (delivery and the three views must be those of "Subscribe, then removal"); the
+// holders re-subscribe / unsubscribe; then the holders withdraw one at a time with the same probes after each (a wrong
+// trie refcount only shows once the other holders are gone); the final snapshot must be empty.
+func (g *gen) genServiceCloseRace(r *vlib.Rand, thorough bool, budget int) {
+	ensureAccounts(3)
+	n := 36 * budget
+	if thorough {
+		n = 600 * budget
+	}
+	patSets := [][]string{{"a/>"}, {"a/*"}, {">"}, {"a/b"}, {"a/>", "b/c"}, {"*/b", "a/*"}, {"a/>", "a/*", ">"}, {"b/c"}}
+	topics := []string{"a/b", "a/c", "b/c", "a", "a/b/c"}
+	for i := 0; i < n; i++ {
+		rr := r.Fork(uint64(i))
+		c := svcCfg{MaxSpace: []int{100, 100, 3, 2}[rr.Intn(4)], MaxStream: []int{1000, 1000, 4}[rr.Intn(3)], Burst: 1000,
+			Resp: []int{0, 1}, Accounts: 3}
+		var evs []svcEv
+		nOpen := 0
+		acctOf := map[int]int{}
+		open := func() int {
+			nOpen++
+			acctOf[nOpen] = rr.Intn(3)
+			evs = append(evs, svcEv{K: "open", Acct: acctOf[nOpen]})
+			return nOpen
+		}
+		for a := 0; a < 3; a++ {
+			for sp := 0; sp < 2; sp++ {
+				evs = append(evs, svcEv{K: "setmember", Space: sp, Acct: a, B: true})
+			}
+		}
+		publisher := open()
+		nHold := 1 + rr.Intn(3)
+		var holders []int
+		for h := 0; h < nHold; h++ {
+			holders = append(holders, open())
+		}
+		shared := patSets[rr.Intn(len(patSets))]
+		for _, h := range holders {
+			ps := shared
+			if rr.Chance(1, 4) {
+				ps = append(append([]string{}, shared...), patSets[rr.Intn(len(patSets))]...)
+			}
+			evs = append(evs, svcEv{K: "sub", Sid: h, Space: 0, Pats: ps})
+			if rr.Chance(1, 3) {
+				evs = append(evs, svcEv{K: "sub", Sid: h, Space: 1, Pats: shared})
+			}
+		}
+		probe := func() {
+			for _, tp := range topics {
+				if rr.Chance(2, 3) {
+					evs = append(evs, svcEv{K: "pub", Sid: publisher, Space: 0, Topic: tp, Claim: acctOf[publisher] + 1})
+				}
+			}
+			if rr.Chance(1, 3) {
+				evs = append(evs, svcEv{K: "pub", Sid: publisher, Space: 1, Topic: topics[rr.Intn(len(topics))], Claim: acctOf[publisher] + 1})
+			}
+			evs = append(evs, svcEv{K: "snap"})
+		}
+		probe()
+		races := 1 + rr.Intn(3)
+		for k := 0; k < races; k++ {
+			racer := open()
+			switch rr.Intn(4) { // earlier interest of the racing stream
+			case 0:
+				evs = append(evs, svcEv{K: "sub", Sid: racer, Space: 0, Pats: []string{"b/c"}})
+			case 1:
+				evs = append(evs, svcEv{K: "sub", Sid: racer, Space: 1, Pats: shared})
+			case 2:
+				evs = append(evs, svcEv{K: "sub", Sid: racer, Space: 0, Pats: shared[:1]})
+			}
+			ps := append([]string{}, shared...)
+			if rr.Chance(1, 3) {
+				ps = append(ps, "x/y", "x/*")
+			}
+			if rr.Chance(1, 4) {
+				ps = append([]string{"b/c"}, ps...)
+			}
+			v := racer
+			switch rr.Intn(6) {
+			case 0:
+				v = holders[rr.Intn(len(holders))] // a holder leaves while the racer subscribes
+			case 1:
+				evs = append(evs, svcEv{K: "break", Sid: racer}) // already out of the pool, read loop alive
+			}
+			evs = append(evs, svcEv{K: "submid", Sid: racer, V: v, Space: 0, Pats: ps})
+			probe()
+			switch rr.Intn(4) {
+			case 0: // the periodic re-subscribe of a holder
+				evs = append(evs, svcEv{K: "sub", Sid: holders[rr.Intn(len(holders))], Space: 0, Pats: shared})
+				probe()
+			case 1:
+				evs = append(evs, svcEv{K: "unsub", Sid: holders[rr.Intn(len(holders))], Space: 0, Pats: shared[:1]})
+				probe()
+			case 2: // the racing stream tries again although it is out of the pool, then goes away
+				evs = append(evs, svcEv{K: "sub", Sid: racer, Space: 0, Pats: shared}, svcEv{K: "close", Sid: racer})
+				probe()
+			}
+		}
+		// the holders withdraw one at a time, with publishes and a snapshot after each: a trie reference lost (or kept) in
+		// a race shows as soon as the remaining holders are not served (or a withdrawn pattern still is)
+		for _, idx := range rr.Perm(len(holders)) {
+			h := holders[idx]
+			switch rr.Intn(4) {
+			case 0:
+				evs = append(evs, svcEv{K: "unsub", Sid: h, Space: 0}, svcEv{K: "unsub", Sid: h, Space: 1})
+			case 1:
+				evs = append(evs, svcEv{K: "close", Sid: h})
+			case 2:
+				evs = append(evs, svcEv{K: "unsub", Sid: h, Space: 0, Pats: shared})
+			default:
+				evs = append(evs, svcEv{K: "break", Sid: h})
+			}
+			probe()
+		}
+		for s := 1; s <= nOpen; s++ {
+			if rr.Chance(1, 2) {
+				evs = append(evs, svcEv{K: "close", Sid: s})
+			}
+		}
+		evs = append(evs, svcEv{K: "closespace", Space: 0}, svcEv{K: "closespace", Space: 1}, svcEv{K: "snap"},
+			svcEv{K: "pub", Sid: publisher, Space: 0, Topic: "a/b", Claim: acctOf[publisher] + 1})
+		g.w.Stat("svc.closerace.histories")
+		g.svcCase(svcHist{Cfg: c, Evs: evs})
 	}
 }
 
